@@ -11,6 +11,8 @@ from sa.source import AnalysisError, class_assigns, methods
 from sa.props._lib_i import (sect, NotPure, Raised, eval_block, guards_hold, is_self_attr, module_env, peval, words)
 
 PROPERTY = "C40"
+INCLUDE = [("C16", ("line", "pause"), "SMTP (LineOnlyReceiver) and SMTPClient (LineReceiver) sit on the line receivers of protocols/basic.py; "
+            "their framing clauses are necessary for 'any segmentation of the network stream'")]
 SMTP = "mail/smtp.py"
 BASIC = "protocols/basic.py"
 TECHNIQUE = "finite evaluation of stuffing rewrite + CFG dominance / who-may-write on DATA mode"
